@@ -6,8 +6,11 @@ reads the raw profile (format version 10) of a harness built with `-C instrument
 as reached when any of its counters is non-zero; "regions" is the share of its counters that are non-zero (a proxy
 for branches).  Usage:
 
-  cd /verif/harness && CARGO_TARGET_DIR=target_alt/cov RUSTFLAGS="--cfg rustrtc_verif --check-cfg cfg(rustrtc_verif) \
-      -C instrument-coverage" cargo build --release --offline --bin inputs
+  cd /verif/harness && LLVM_PROFILE_FILE=/verif/out/C07/cov/build-%p.profraw CARGO_TARGET_DIR=target_alt/cov \
+      RUSTFLAGS="--cfg rustrtc_verif --check-cfg cfg(rustrtc_verif) -C instrument-coverage" \
+      cargo build --release --offline --bin inputs
+  (LLVM_PROFILE_FILE matters for the build too: instrumented build scripts and proc-macros write a profile when they
+  run, by default into their working directory - which is /repo for rustrtc's)
   ./check C07                      # leaves out/C07/{grammar,cases}_<pass>.ndjson
   python3 checks/C07_cov.py [pass ...]
 """
